@@ -326,3 +326,24 @@ func Explore(scenarios []Scenario, b Bounds, workers int, deadline time.Time, ma
 	sort.Slice(total.Violations, func(i, j int) bool { return len(total.Violations[i].Choices) < len(total.Violations[j].Choices) })
 	return total, len(queue) == 0 && !(maxViolations > 0 && len(total.Violations) >= maxViolations && stop && len(queue) > 0), len(queue)
 }
+
+// ReplayFile re-runs the execution recorded in a replay file written by ev.Violate for a sched.Replay (the
+// document has the form {"replay": {scenario, bounds, choices, ...}}) with tracing on.
+func ReplayFile(path string, lookup func(string) Scenario) (Replay, Result, string, []Finding, error) {
+	raw, err := os.ReadFile(path)
+	if err != nil {
+		return Replay{}, Result{}, "", nil, err
+	}
+	var doc struct {
+		Replay Replay `json:"replay"`
+	}
+	if err := json.Unmarshal(raw, &doc); err != nil {
+		return Replay{}, Result{}, "", nil, err
+	}
+	sc := lookup(doc.Replay.Scn)
+	if sc == nil {
+		return doc.Replay, Result{}, "", nil, fmt.Errorf("unknown scenario %q", doc.Replay.Scn)
+	}
+	res, outcome, fs := RunOne(sc, doc.Replay.Bounds, doc.Replay.Choices, true)
+	return doc.Replay, res, outcome, fs, nil
+}
